@@ -1671,6 +1671,12 @@ func vfC17amWalk(t *testing.T, res *vfh.Result, cfg vfC17amCfg, w vfh.Walk, vari
 			res.Sample(map[string]any{"instance": cfg.Name, "walk": w.Walk, "ops": prefix})
 		}
 		step = len(w.Steps)
+		if cfg.Tracker && h.startCalled && !h.closeCalled && h.parked() {
+			// epilogue: one more hour with the loop held where it is: the tracker probes again whatever it tracks, and
+			// that must be direct addresses of the host (it is told at every change)
+			time.Sleep(4200 * time.Second)
+			synctest.Wait()
+		}
 		h.finish(rep)
 		h.mu.Lock()
 		late := h.readsAfterClose
